@@ -53,7 +53,7 @@ func mergeParallel(w *load.World, c *core.Collector, f *ssa.Function, props []st
 		return
 	}
 	var or, and *ssa.Call
-	var sortCall *ssa.Call
+	var sortCall, sortInner *ssa.Call // the call in this function, and the slices.SortFunc call that does the work
 	for _, b := range f.Blocks {
 		for _, in := range b.Instrs {
 			if call, ok := in.(*ssa.Call); ok {
@@ -65,7 +65,21 @@ func mergeParallel(w *load.World, c *core.Collector, f *ssa.Function, props []st
 						and = call
 					case strings.HasPrefix(g.String(), "slices.SortFunc") || strings.HasPrefix(g.String(), "slices.SortStableFunc"):
 						if isSearchResultSlice(call.Call.Args[0].Type()) {
-							sortCall = call
+							sortCall, sortInner = call, call
+						}
+					case ssax.InModule(g):
+						// a helper that sorts the result slice it is given
+						for i, a := range call.Call.Args {
+							if !isSearchResultSlice(a.Type()) || i >= len(g.Params) {
+								continue
+							}
+							for _, gb := range g.Blocks {
+								for _, gi := range gb.Instrs {
+									if ic, ok := gi.(*ssa.Call); ok && ic.Call.StaticCallee() != nil && (strings.HasPrefix(ic.Call.StaticCallee().String(), "slices.SortFunc") || strings.HasPrefix(ic.Call.StaticCallee().String(), "slices.SortStableFunc")) && ic.Call.Args[0] == ssa.Value(g.Params[i]) {
+										sortCall, sortInner = call, ic
+									}
+								}
+							}
 						}
 					}
 				}
@@ -221,7 +235,7 @@ func mergeParallel(w *load.World, c *core.Collector, f *ssa.Function, props []st
 		c.Add("MERGE", "order", core.Violation, w.Position(f.Pos()), "merged results are not sorted by hybrid score", props...)
 		return
 	}
-	desc, ok := comparatorDescending(sortCall, "HybridScore")
+	desc, ok := comparatorDescending(sortInner, "HybridScore")
 	switch {
 	case !ok:
 		c.Add("MERGE", "order", core.Undecided, w.At(sortCall), "the comparator is not cmp.Compare over the two operands' HybridScore", props...)
@@ -295,7 +309,45 @@ func mergePaging(w *load.World, c *core.Collector, props []string) {
 		c.Add("MERGE", "paging", core.Violation, w.Position(f.Pos()), "the results are not cut to [offset, offset+limit)", props...)
 		return
 	}
+	isLenRes := func(x ssa.Value) bool {
+		lc, ok := x.(*ssa.Call)
+		if !ok {
+			return false
+		}
+		lb, ok := lc.Call.Value.(*ssa.Builtin)
+		return ok && lb.Name() == "len" && isSearchResultSlice(lc.Call.Args[0].Type())
+	}
 	clamp := func(v ssa.Value) (inner ssa.Value, clamped bool) {
+		// `if x > len(results) { x = len(results) }`: a phi of x and len chosen by that very test
+		if phi, ok := v.(*ssa.Phi); ok && len(phi.Edges) == 2 {
+			for i := 0; i < 2; i++ {
+				if !isLenRes(phi.Edges[i]) {
+					continue
+				}
+				x := phi.Edges[1-i]
+				via := phi.Block().Preds[i] // the block that assigned len
+				for _, tb := range f.Blocks {
+					ifi, ok := tb.Instrs[len(tb.Instrs)-1].(*ssa.If)
+					if !ok {
+						continue
+					}
+					bo, ok := ifi.Cond.(*ssa.BinOp)
+					if !ok {
+						continue
+					}
+					over := -1
+					switch {
+					case (bo.Op == token.GTR || bo.Op == token.GEQ) && bo.X == x && isLenRes(bo.Y), (bo.Op == token.LSS || bo.Op == token.LEQ) && isLenRes(bo.X) && bo.Y == x:
+						over = 0
+					case (bo.Op == token.LEQ || bo.Op == token.LSS) && bo.X == x && isLenRes(bo.Y), (bo.Op == token.GEQ || bo.Op == token.GTR) && isLenRes(bo.X) && bo.Y == x:
+						over = 1
+					}
+					if over >= 0 && (tb.Succs[over] == via || via == tb && tb.Succs[over] == phi.Block()) {
+						return x, true
+					}
+				}
+			}
+		}
 		call, ok := v.(*ssa.Call)
 		if !ok {
 			return v, false
